@@ -165,6 +165,22 @@ def multiscale_collections(ctx):
     return out
 
 
+def crowded_collections():
+    """257 and more boxes that all fall into one quadrant (nested, duplicated, sharing a corner,
+    strokes through one point): nothing separates them, the node must become a leaf - at any
+    size (small-integer caching, a byte-sized counter and recursion limits end at 256)."""
+    out = []
+    out.append([(k, (-k, -k, k, k)) for k in range(1, 301)])                  # nested
+    out.append([(k, (2, 3, 5, 7)) for k in range(257)])                       # duplicates
+    out.append([(k, (0, 0, k, k)) for k in range(1, 401)])                    # common corner
+    strokes = [(k, (-k, 0, k, 0)) for k in range(1, 151)]
+    strokes += [(1000 + k, (0, -k, 0, k)) for k in range(1, 151)]             # through (0, 0)
+    out.append(strokes)
+    out.append([(k, (k % 7 - 40, k % 5 - 40, k % 7 - 39, k % 5 - 39)) for k in range(64)] +
+               [(100 + k, (-k / 4, -k / 4, k / 4, k / 4)) for k in range(1, 281)])
+    return out
+
+
 def _multiscale_chunk(collections):
     part = core.Part()
     for boxes in collections:
@@ -259,6 +275,8 @@ def run(ctx):
         jobs.append(("subset", chunk))
     for chunk in core.split(multiscale_collections(ctx), 16):
         jobs.append(("multiscale", chunk))
+    for crowd in crowded_collections():
+        jobs.append(("multiscale", [crowd]))
     part = core.fan_out(ctx, _dispatch, jobs)
     # the empty collection
     bad, _depth = check_collection([], q_small)
@@ -279,7 +297,8 @@ def run(ctx):
                 "queries; a seed-derived 3-coordinate alphabet; multisets of 1..2 boxes over tenths {0,.1,.2,.3} "
                 "and over {2^53, +2, +6, +8} and {+-1.1e308, +-1.6e308} x 100 queries, 1..3 boxes over {.7,.9,1}; all 4096 subsets of a 12-box "
                 "arrangement x 16 queries; collections of 20..96 (128) boxes on geometric scales "
-                "(tree depth up to max_tree_depth) queried with every box, its centre and the "
+                "(tree depth up to max_tree_depth) and five crowded collections of 257..400 boxes that "
+                "fall into one quadrant, queried with every box, its centre and the "
                 "focus; the empty collection; non-trivial = collections whose "
                 "index actually has subtrees; distinct identifiers even for equal boxes",
         "samples": core.rotate(part.samples, ctx.seed, 4),
